@@ -59,7 +59,8 @@ def findings_table():
 
 
 def seeds_table():
-    rows = ["| seed | what the change does (needs) | confirmed | own-property check | other checks |", "|---|---|---|---|---|"]
+    fr = load(os.path.join(V, "seeded", "FIRST_RUN.json"), {}) or {}
+    rows = ["| seed | what the change does (needs) | confirmed | first run of the own-property check | now (own-property check) | other checks now | strengthening done after the first run |", "|---|---|---|---|---|---|---|"]
     for d in sorted(glob.glob(os.path.join(V, "seeded", "C*-*"))):
         sid = os.path.basename(d)
         m = load(os.path.join(d, "meta.json"), {}) or {}
@@ -78,7 +79,7 @@ def seeds_table():
         others = "; ".join("%s: %s" % (c, fmt(c)) for c in sorted(chk) if c != own) or "-"
         what = (m.get("summary", "") or "").replace("|", "\\|").replace("\n", " ")
         needs = (m.get("needs_to_manifest", "") or "").replace("|", "\\|").replace("\n", " ")
-        rows.append("| %s | %s — *needs:* %s | %s | %s | %s |" % (sid, what[:230], needs[:200], "yes" if conf.get("confirmed") else "NO", fmt(own), others))
+        rows.append("| %s | %s — *needs:* %s | %s | %s | %s | %s | %s |" % (sid, what[:230], needs[:200], "yes" if conf.get("confirmed") else "NO", fr.get("first_run", {}).get(sid, "?"), fmt(own), others, fr.get("strengthening", {}).get(sid, "-")))
     return "\n".join(rows)
 
 
